@@ -2,7 +2,7 @@
    decoder produces ([decoded_range]) can always be encoded again: bytes(m) does not raise. *)
 From BP Require Import Base.Prelude Model.Types Model.Varint Model.Scalar Model.Float Model.Utf8.
 From BP Require Import Model.Object Model.Eq Model.TimeCore Model.Encode Model.WellFormed Model.C17Typed.
-From BP Require Import Spec.Varint Proofs.BytesP Proofs.ScalarP Proofs.C17TypedAuxP.
+From BP Require Import Spec.Varint Proofs.BytesP Proofs.ScalarP Proofs.C17TypedAuxP Proofs.C17TypedP.
 From BP Require Import gen.Tables.
 From Coq Require Import ZifyBool.
 Ltac Zify.zify_post_hook ::= Z.to_euclidean_division_equations.
@@ -173,4 +173,210 @@ Section Enc.
     - destruct (Hsc us); congruence.
     - destruct (Hsc us); congruence.
   Qed.
+
+  Lemma concat_map_ok {A} (g : A -> result (list byte)) l :
+    Forall (fun x => exists bs, g x = Ok bs) l -> exists bs, concat_map g l = Ok bs.
+  Proof.
+    induction 1 as [|x l [b Hb] _ [bs IH]]; cbn [concat_map]; [eauto|].
+    rewrite Hb. cbn [bind]. fold (concat_map g l). rewrite IH. cbn [bind]. eauto.
+  Qed.
+
+  Definition attr_msgs_ok (enc_msg : obj -> result (list byte)) (v : pv) : Prop :=
+    match v with
+    | PList l => Forall (msg_ok enc_msg) l
+    | PDict d => Forall (fun kv : pv * pv => msg_ok enc_msg (snd kv)) d
+    | _ => msg_ok enc_msg v
+    end.
+
+  Lemma tv_not_container t p v : tv t p v = true -> (forall l, v <> PList l) /\ (forall d, v <> PDict d).
+  Proof. destruct p, v; cbn [typed_val]; try discriminate; split; discriminate. Qed.
+
+  Lemma forallb_Forall2 {A} (P : A -> bool) (Q R : A -> Prop) l :
+    forallb P l = true -> Forall Q l -> (forall x, P x = true -> Q x -> R x) -> Forall R l.
+  Proof.
+    intros H HQ HR. induction HQ as [|x l Hx _ IH]; [constructor|]. cbn in H. apply andb_true_iff in H as [H1 H2].
+    constructor; [apply HR; assumption | apply IH, H2].
+  Qed.
+
+  (* the body of dump's loop for one attribute that is neither PLACEHOLDER nor None *)
+  Lemma emit_ok enc_msg f ng sel v :
+    wf_field sc ng f = true -> ta v f = true -> v <> PPlaceholder -> v <> PNone ->
+    attr_msgs_ok enc_msg v ->
+    exists bs, emit_field enc_msg sc f sel v = Ok bs.
+  Proof.
+    intros Hw Hta N1 N2 Hm. unfold emit_field.
+    match goal with |- context [if ?c then _ else _] => destruct c; [eauto|] end.
+    unfold wf_field in Hw. unfold typed_attr in Hta.
+    assert (Hnum : 0 <= fnum f) by (split_and; lia).
+    destruct (fhint f) as [p'|p'|p'|pk pv'] eqn:Hh.
+    - (* plain *)
+      split_and. assert (Ew : fwraps f = None) by (destruct (fwraps f); [discriminate | reflexivity]).
+      assert (Hv : tv (fty f) p' v = true) by (destruct v; try congruence; exact Hta).
+      destruct (tv_not_container _ _ _ Hv) as [NL ND].
+      assert (Hmo : msg_ok enc_msg v) by (destruct v; try exact Hm; [destruct (NL l); reflexivity | destruct (ND l); reflexivity]).
+      destruct (preprocess_ok enc_msg _ _ _ Hv ltac:(assumption) Hmo) as [value Hval].
+      rewrite Ew. destruct v; try (eapply serialize_ok; eassumption).
+      + destruct (NL l); reflexivity.
+      + destruct (ND l); reflexivity.
+    - (* optional / wrapper *)
+      assert (Hv : tv (opt_elem_type f) p' v = true) by (destruct v; try congruence; exact Hta).
+      destruct (tv_not_container _ _ _ Hv) as [NL ND].
+      assert (Hmo : msg_ok enc_msg v) by (destruct v; try exact Hm; [destruct (NL l); reflexivity | destruct (ND l); reflexivity]).
+      unfold opt_elem_type in Hv.
+      assert (Hpre : exists value, preprocess_with (msg_bytes enc_msg) (fty f) (fwraps f) v = Ok value).
+      { destruct (fwraps f) as [w|] eqn:Ew; split_and.
+        - destruct (wrapper_value_type w) as [vt|] eqn:Evt; [|discriminate].
+          assert (Et : fty f = TMessage) by (apply ptype_eqb_eq; assumption). rewrite Et.
+          eapply preprocess_wrapper_ok; eassumption.
+        - eapply preprocess_ok; eassumption. }
+      destruct Hpre as [value Hval].
+      destruct v; try (eapply serialize_ok; eassumption).
+      + destruct (NL l); reflexivity.
+      + destruct (ND l); reflexivity.
+    - (* repeated *)
+      split_and. assert (Ew : fwraps f = None) by (destruct (fwraps f); [discriminate | reflexivity]).
+      destruct v as [| | | | | | | | |items| |]; try congruence; try discriminate Hta.
+      cbn [attr_msgs_ok] in Hm.
+      assert (Hall : Forall (fun x => exists bs, preprocess_with (msg_bytes enc_msg) (fty f) None x = Ok bs) items).
+      { eapply forallb_Forall2; [exact Hta | exact Hm|]. intros x Hx Hmx. eapply preprocess_ok; eassumption. }
+      destruct (tmem (fty f) PACKED_TYPES).
+      + destruct (concat_map_ok _ _ Hall) as [buf ->]. cbn [bind].
+        eapply serialize_ok; [|exact Hnum]. reflexivity.
+      + rewrite Ew. apply concat_map_ok. eapply Forall_impl; [|exact Hall].
+        intros x [value Hval]. destruct (serialize_ok _ (fnum f) _ _ true None _ Hval Hnum) as [r ->]. cbn [bind]. eauto.
+    - (* map *)
+      split_and. destruct (fmap f) as [[kt vt]|] eqn:Hmf; [|discriminate]. split_and.
+      destruct v as [| | | | | | | | | |kvs|]; try congruence; try discriminate Hta.
+      cbn [attr_msgs_ok] in Hm.
+      assert (Et : fty f = TMap) by (apply ptype_eqb_eq; assumption).
+      induction kvs as [|[k v'] kvs IH]; [eauto|].
+      cbn [forallb] in Hta. apply andb_true_iff in Hta as [Hkv Hta]. apply andb_true_iff in Hkv as [Hk Hv'].
+      inversion Hm as [|? ? Hm1 Hm2]; subst. cbn [snd] in Hm1.
+      assert (Hmk : msg_ok enc_msg k).
+      { destruct k; try exact I. destruct pk; cbn [typed_val] in Hk; try discriminate Hk.
+        destruct kt; try discriminate; match goal with Hx : map_key_ok _ = true |- _ => discriminate Hx end. }
+      destruct (preprocess_ok enc_msg _ _ _ Hk ltac:(assumption) Hmk) as [vk Hvk].
+      destruct (serialize_ok _ 1 _ _ false None _ Hvk ltac:(lia)) as [sk ->]. cbn [bind].
+      destruct (preprocess_ok enc_msg _ _ _ Hv' ltac:(assumption) Hm1) as [vv Hvv].
+      destruct (serialize_ok _ 2 _ _ false None _ Hvv ltac:(lia)) as [sv ->]. cbn [bind].
+      assert (Hpe : preprocess_with (msg_bytes enc_msg) (fty f) None (PBytes (sk ++ sv)) = Ok (sk ++ sv)) by (rewrite Et; reflexivity).
+      destruct (serialize_ok _ (fnum f) _ _ true None _ Hpe Hnum) as [e ->]. cbn [bind].
+      destruct (IH Hta ltac:(discriminate) ltac:(discriminate) Hm2) as [rest Hrest].
+      rewrite Hrest. cbn [bind]. eauto.
+  Qed.
+
+  Definition Qenc (o : obj) : Prop := tobj o = true -> exists bs, enc_obj sc o = Ok bs.
+  Definition Pm (v : pv) : Prop := match v with PMsg o => Qenc o | _ => True end.
+  Definition Penc (v : pv) : Prop :=
+    Pm v /\ match v with
+            | PList l => Forall Pm l
+            | PDict d => Forall (fun kv : pv * pv => Pm (snd kv)) d
+            | _ => True
+            end.
+
+  Lemma tv_msg_ok t p v : tv t p v = true -> Pm v -> msg_ok (enc_obj sc) v.
+  Proof.
+    intros Hv HP. destruct v; try exact I. cbn [Pm msg_ok] in *.
+    destruct p; try (cbn [typed_val] in Hv; discriminate Hv).
+    rewrite tv_msg in Hv. apply andb_true_iff in Hv as [_ Hv]. exact (HP Hv).
+  Qed.
+
+  Lemma attr_msgs_ok_of f v : ta v f = true -> v <> PPlaceholder -> v <> PNone -> Penc v -> attr_msgs_ok (enc_obj sc) v.
+  Proof.
+    intros Hta N1 N2 [HP HC]. unfold typed_attr in Hta.
+    destruct (fhint f) as [p'|p'|p'|pk pv'].
+    - assert (Hv : tv (fty f) p' v = true) by (destruct v; try congruence; exact Hta).
+      destruct (tv_not_container _ _ _ Hv) as [NL ND].
+      destruct v; try (eapply tv_msg_ok; eassumption); [destruct (NL l); reflexivity | destruct (ND l); reflexivity].
+    - assert (Hv : tv (opt_elem_type f) p' v = true) by (destruct v; try congruence; exact Hta).
+      destruct (tv_not_container _ _ _ Hv) as [NL ND].
+      destruct v; try (eapply tv_msg_ok; eassumption); [destruct (NL l); reflexivity | destruct (ND l); reflexivity].
+    - destruct v; try congruence; try discriminate Hta. cbn [attr_msgs_ok].
+      eapply forallb_Forall2; [exact Hta | exact HC|]. intros x Hx Hpx. eapply tv_msg_ok; eassumption.
+    - destruct (fmap f) as [[kt vt]|]; destruct v; try congruence; try discriminate Hta. cbn [attr_msgs_ok].
+      eapply forallb_Forall2; [exact Hta | exact HC|]. intros [k y] Hx Hpx.
+      apply andb_true_iff in Hx as [_ Hy]. cbn [snd] in *. eapply tv_msg_ok; eassumption.
+  Qed.
+
+  Lemma default_not_sentinel f d : default_of sc f = d -> d <> PPlaceholder.
+  Proof. intros <-. unfold default_of. destruct (fhint f) as [[]| | |]; discriminate. Qed.
+
+  Theorem enc_total_gen : (forall v, Penc v) /\ (forall o, Qenc o).
+  Proof.
+    assert (H : forall v, Penc v).
+    2:{ split; [exact H|]. intros o. pose proof (H (PMsg o)) as [HP _]. exact HP. }
+    apply (pv_ind2 Penc Qenc); try (intros; split; exact I).
+    - intros l Hl. split; [exact I|]. eapply Forall_impl; [|exact Hl]. intros v [HP _]. exact HP.
+    - intros d Hd. split; [exact I|]. eapply Forall_impl; [|exact Hd]. intros kv [HP _]. exact HP.
+    - intros o HQ. split; [exact HQ | exact I].
+    - (* an object *)
+      intros c raw sow unk cur Hraw Ht. cbn [typed_obj] in Ht. apply andb_true_iff in Ht as [_ Ht].
+      cbn [enc_obj].
+      pose proof (wf_fields_of sc c Hwf) as Hwfs.
+      set (ng := cngroups (get_class sc c)) in *.
+      revert Ht Hwfs. generalize (cfields (get_class sc c)) as fs. generalize 0%nat as i.
+      assert (G : forall raw, Forall Penc raw -> forall i fs,
+        forallb2 ta raw fs = true -> forallb (wf_field sc ng) fs = true ->
+        exists body,
+          (fix go (i : nat) (raw : list pv) (fs : list fdesc) {struct raw} : result (list byte) :=
+             match raw, fs with
+             | x :: raw', f :: fs' =>
+                 do here <-
+                   match group_selects cur f i with
+                   | Some false => Ok []
+                   | sel =>
+                       match x with
+                       | PNone => Ok []
+                       | PPlaceholder =>
+                           match default_of sc f with
+                           | PNone => Ok []
+                           | d => emit_field (fun _ => Ok []) sc f sel d
+                           end
+                       | _ => emit_field (enc_obj sc) sc f sel x
+                       end
+                   end;
+                 do rest <- go (S i) raw' fs';
+                 Ok (here ++ rest)
+             | _, _ => Ok []
+             end) i raw fs = Ok body).
+      { clear raw Hraw. induction 1 as [|x raw Hx _ IH]; intros i fs Ht Hw; [eauto|].
+        destruct fs as [|f fs]; [eauto|]. cbn [forallb2 forallb] in Ht, Hw.
+        apply andb_true_iff in Ht as [Hta Ht]. apply andb_true_iff in Hw as [Hwf0 Hw].
+        assert (Hhere : forall sel, exists here,
+                  match x with
+                  | PNone => Ok []
+                  | PPlaceholder =>
+                      match default_of sc f with
+                      | PNone => Ok []
+                      | d => emit_field (fun _ => Ok []) sc f sel d
+                      end
+                  | _ => emit_field (enc_obj sc) sc f sel x
+                  end = Ok here).
+        { intros sel.
+          assert (Hx' : x <> PPlaceholder -> x <> PNone -> exists here, emit_field (enc_obj sc) sc f sel x = Ok here).
+          { intros N1 N2. eapply emit_ok; try eassumption. eapply attr_msgs_ok_of; eassumption. }
+          destruct x; try (apply Hx'; discriminate); [|eauto].
+          pose proof (default_typed true sc Hwf f ng Hwf0) as Hd.
+          pose proof (default_not_sentinel f _ eq_refl) as Hn.
+          assert (Hd' : default_of sc f <> PNone -> exists here, emit_field (fun _ => Ok []) sc f sel (default_of sc f) = Ok here).
+          { intros N2. eapply emit_ok; try eassumption.
+            destruct (default_of sc f); cbn [attr_msgs_ok msg_ok]; eauto.
+            - apply Forall_forall. intros y _. destruct y; cbn; eauto.
+            - apply Forall_forall. intros [k y] _. destruct y; cbn; eauto. }
+          destruct (default_of sc f); try (apply Hd'; discriminate); eauto. }
+        destruct (IH (S i) fs Ht Hw) as [rest Hrest].
+        assert (Hstep : forall (A B : result (list byte)), (exists h, A = Ok h) -> (exists r, B = Ok r) ->
+                  exists body, (do here <- A; do rest <- B; Ok (here ++ rest)) = Ok body)
+          by (intros A B [h ->] [r ->]; cbn [bind]; eauto).
+        cbv beta iota fix. fold (@bind (list byte) (list byte)).
+        apply Hstep; [|exists rest; exact Hrest].
+        destruct (group_selects cur f i) as [[|]|]; [apply (Hhere (Some true)) | eauto | apply (Hhere None)]. }
+      intros i fs Ht Hw.
+      assert (Hfin : forall A : result (list byte), (exists b, A = Ok b) ->
+                exists bs, (do body <- A; Ok (body ++ unk)) = Ok bs) by (intros A [b ->]; cbn [bind]; eauto).
+      apply Hfin. exact (G raw Hraw i fs Ht Hw).
+  Qed.
+
+  Theorem enc_total o : typed_obj true sc o = true -> exists bs, enc_obj sc o = Ok bs.
+  Proof. apply (proj2 enc_total_gen). Qed.
 End Enc.
